@@ -1,7 +1,7 @@
 (* C10 — Saved state restores the session exactly. *)
 From Coq Require Import ZArith List Bool Permutation Sorted.
 From Common Require Import Res.
-From Core Require Import World Model Step Reach Proofs_C01 Proofs_C10.
+From Core Require Import World Model Step Reach Proofs_C01 Proofs_C10 Proofs_C03b Proofs_C10b.
 Import ListNotations.
 Open Scope Z_scope.
 
@@ -35,3 +35,37 @@ Theorem C10_ids_fresh_after_restore :
   /\ zlen (World.tl w) <= mx.
 Proof. exact ids_unique_fresh_lemma. Qed.
 Print Assumptions C10_ids_fresh_after_restore.
+
+(* T4 (play-last, playing): a new process in which the tracklist is present and nothing has
+   been played yet (fresh_stopped: e.g. the state T1 describes) restores "playing tlid i at
+   position p" - for every tracklist, every playable entry x with that ID and every position
+   0 < p <= length: once the audio layer's notifications have been delivered the current entry
+   is the one with the saved ID, the core and the audio layer are playing, the reported
+   position is the saved one, nothing is pending and the tracklist is untouched. *)
+Theorem C10_restore_playing_at_position :
+  forall shuf f s i x p len w,
+  s_tlid s = Some i -> s_state s = Playing -> s_pos s = p ->
+  fresh_stopped w -> 1 <= i -> find (fun y => tlid y =? i) (World.tl w) = Some x -> accepts w x ->
+  len_of w (trk x) = Some len -> 0 < p -> p <= len ->
+  let w0 := snd (load_state shuf (S f) play_last_cov s w) in
+  let w' := run_world shuf (S f) w0 [Deliver; Deliver; Deliver; Deliver; Deliver] in
+  option_map tlid (current w') = Some i /\ pstate w' = Playing /\ pending w' = None /\ queue w' = []
+  /\ a_pos w' = p /\ fst (get_time_position w') = Ok p
+  /\ a_uri w' = Some (trk x) /\ a_state w' = Playing /\ World.tl w' = World.tl w.
+Proof. exact restore_playing_at_position. Qed.
+Print Assumptions C10_restore_playing_at_position.
+
+(* T5 (play-last, paused): same for a session saved while paused; the restored process ends
+   paused (core and audio layer) on the saved entry at the saved position. *)
+Theorem C10_restore_paused_at_position :
+  forall shuf f s i x p len w,
+  s_tlid s = Some i -> s_state s = Paused -> s_pos s = p ->
+  fresh_stopped w -> 1 <= i -> find (fun y => tlid y =? i) (World.tl w) = Some x -> accepts w x ->
+  len_of w (trk x) = Some len -> 0 < p -> p <= len ->
+  let w0 := snd (load_state shuf (S f) play_last_cov s w) in
+  let w' := run_world shuf (S f) w0 [Deliver; Deliver; Deliver; Deliver; Deliver; Deliver; Deliver] in
+  option_map tlid (current w') = Some i /\ pstate w' = Paused /\ pending w' = None /\ queue w' = []
+  /\ a_pos w' = p /\ fst (get_time_position w') = Ok p
+  /\ a_uri w' = Some (trk x) /\ a_state w' = Paused /\ World.tl w' = World.tl w.
+Proof. exact restore_paused_at_position. Qed.
+Print Assumptions C10_restore_paused_at_position.
